@@ -1,4 +1,5 @@
 import RustCcModel.Model.Protocol
+import RustCcModel.Model.Bits
 open RustCc
 
 structure DState where
@@ -79,7 +80,79 @@ partial def loop (h : IO.FS.Stream) (out : IO.FS.Stream) (st : DState) : IO Unit
   | none => pure ()
   loop h out st'
 
-def main : IO Unit := do
+def b01' (b : Bool) : String := if b then "1" else "0"
+
+/-- The table of every counter-word operation on every 16-bit word, in the harness' format. -/
+def wordsTable (out : IO.FS.Stream) : IO Unit := do
+  let reserved := fun (w : Nat) => w % Bits.M == Bits.M - 1
+  let cline := fun (name : String) (w nw : Nat) (failed : Bool) =>
+    s!"{name} {w} {nw} {b01' failed} {Bits.rc nw} {b01' (Bits.finalized nw)} {b01' (Bits.hasMeta nw)}"
+  let cops : List (String × (Nat → Nat × Bool)) := [
+    ("g", fun c => (c, false)),
+    ("ic", fun c => let r := Bits.incrCounter c; (r.1, !r.2)),
+    ("dc", fun c => let r := Bits.decrCounter c; (r.1, !r.2)),
+    ("sf1", fun c => (Bits.setFinalized c true, false)),
+    ("sf0", fun c => (Bits.setFinalized c false, false)),
+    ("sm1", fun c => (Bits.setHasMeta c true, false)),
+    ("sm0", fun c => (Bits.setHasMeta c false, false))]
+  for (name, f) in cops do
+    for w in List.range 65536 do
+      if !reserved w then
+        let (nw, failed) := f w
+        out.putStrLn (cline name w nw failed)
+  let tline := fun (name : String) (w nw : Nat) (failed : Bool) =>
+    let tc := if Bits.dropped nw then "r" else toString (Bits.tc nw)
+    s!"{name} {w} {nw} {b01' failed} {tc} {Bits.mark nw} {b01' (Bits.dropped nw)} {b01' (Bits.mark nw < 2)} {b01' (Bits.mark nw ≥ 2)}"
+  let tops : List (String × Bool × (Nat → Nat × Bool)) := [
+    ("gt", false, fun t => (t, false)),
+    ("it", true, fun t => let r := Bits.incrTracing t; (r.1, !r.2)),
+    ("rt", true, fun t => (Bits.resetTracing t, false)),
+    ("sd1", false, fun t => (Bits.setDropped t true, false)),
+    ("sd0", false, fun t => (Bits.setDropped t false, false)),
+    ("m0", false, fun t => (Bits.setMark t 0, false)),
+    ("m1", false, fun t => (Bits.setMark t 1, false)),
+    ("m2", false, fun t => (Bits.setMark t 2, false)),
+    ("m3", false, fun t => (Bits.setMark t 3, false))]
+  for (name, skip, f) in tops do
+    for w in List.range 65536 do
+      if !(skip && reserved w) then
+        let (nw, failed) := f w
+        out.putStrLn (tline name w nw failed)
+  let wops : List (String × (Nat → Nat × Bool)) := [
+    ("gw", fun m => (m, false)),
+    ("iw", fun m => let r := Bits.incrWeak m; (r.1, !r.2)),
+    ("dw", fun m => let r := Bits.decrWeak m; (r.1, !r.2)),
+    ("sa1", fun m => (Bits.setAccessible m true, false)),
+    ("sa0", fun m => (Bits.setAccessible m false, false))]
+  for (name, f) in wops do
+    for w in List.range 65536 do
+      let (nw, failed) := f w
+      out.putStrLn s!"{name} {w} {nw} {b01' failed} {Bits.weak nw} {b01' (Bits.accessible nw)}"
+  out.putStrLn s!"new {Consts.initTracing} {Consts.initCounter} {Consts.initCounterFinalized} {Consts.weakInitAccessible} {Consts.weakInit}"
+
+/-- `adjust` / `should` lines, as the harness' `policy` mode. -/
+partial def policyLoop (h out : IO.FS.Stream) : IO Unit := do
+  let line ← h.getLine
+  if line.isEmpty then return ()
+  match splitToks line with
+  | ["adjust", thr, bits, alloc] =>
+    match thr.toNat?, parseHex bits, alloc.toNat? with
+    | some thr, some bits, some alloc =>
+      out.putStrLn (toString (Policy.adjustF Consts.defaultThr (Policy.fuelFor alloc thr) alloc bits thr))
+    | _, _, _ => out.putStrLn "bad"
+  | ["should", auto, thr, bt, alloc, buffered] =>
+    match thr.toNat?, alloc.toNat?, buffered.toNat? with
+    | some thr, some alloc, some buffered =>
+      let bt := if bt = "none" then none else bt.toNat?.bind fun n => if n = 0 then none else some n
+      out.putStrLn (b01' (Policy.shouldCollect (auto = "1") alloc thr buffered bt))
+    | _, _, _ => out.putStrLn "bad"
+  | _ => out.putStrLn "bad"
+  policyLoop h out
+
+def main (args : List String) : IO Unit := do
   let stdin ← IO.getStdin
   let stdout ← IO.getStdout
-  loop stdin stdout {}
+  match args with
+  | ["words"] => wordsTable stdout
+  | ["policy"] => policyLoop stdin stdout
+  | _ => loop stdin stdout {}
